@@ -5,10 +5,45 @@ CFG = {
     "drivers": ["C19"],
     "stateful": True,
     "trivial_prefix": ("-", "idx=0\t"),
-    "rule": "placeholder",
-    "trusted_base": [],
-    "level_text": "placeholder",
-    "level_note": "placeholder",
-    "assumptions": [],
+    "rule": "one widget per case, driven through its public API; cases = op histories. widgets/list: every history "
+            "over {down,up,home,end,pgdn,pgup,set 0/2/n+1,draw} up to length 3 (quick) / 4 (thorough) for every item count "
+            "0..4 x viewport 0..5, plus a reduced alphabet up to length 5 / 7 on counts {0,1,3} x viewports {0,1,2}, "
+            "plus random histories (counts 0..40, viewports 0..8, length 5..40); every case ends with a draw whose "
+            "cells are read back from a fake-console Vaxis. widgets/pager: every text of up to 4 pieces over "
+            "{a,b,space,newline,wide CJK} x width 0..4 x height 0..3, plus random texts (CRLF, combining marks, emoji, "
+            "1-3 segments) with random draw/scroll/offset/relayout histories. widgets/scrollbar: all (total,view,top,h) "
+            "in [-1,6]x[-1,7]x[-2,7]x[0,5] plus random valid positions. vxfw/list Dynamic: every history over "
+            "{next,prev,wheel up/down,draw,setcursor,pending -2} up to length 3 / 5 on 9 height patterns (0..4 items, "
+            "heights 1..3) x viewports {0,1,2,3,5} x (gap, cursor gutter) in {(0,off),(0,on),(1,off)}, plus random "
+            "histories with item replacement, heights up to 9, gaps 0..2. distinct = whole op history; non-trivial = "
+            "anything but the constructor line.",
+    "trusted_base": [
+        "vaxis.Characters (uniseg segmentation, widths) is a parameter of the pager model: the harness passes the characters",
+        "Window.Println / SetCell / Fill (clipping, C11) are not re-modelled here: the list model prints item i on row i when i < height",
+        "uint is 64 bit (Go on amd64/arm64) in the Dynamic list model",
+    ],
+    "level_text": "widgets/list: no panic, index in range and the selected row inside the viewport are proved for every item "
+                  "count >= 0, every viewport height >= 0 and every finite history, over the index expressions regenerated from "
+                  "list.go. widgets/pager: the laid-out lines reproduce every character of every text incl. an unterminated "
+                  "last line, respect the width, and Draw clamps the offset - proved for all texts/widths/offsets. "
+                  "widgets/scrollbar: bar inside the track proved for all valid positions. vxfw/list Dynamic: layout "
+                  "(order, contiguity, heights) proved for one Draw from ANY state for gap = 0 or no upward scroll; no panic "
+                  "for an empty builder over all histories; selected item visible after SetCursor/NextItem/PrevItem + Draw "
+                  "proved from any settled scroll state (the invariant itself is validated by correspondence only).",
+    "level_note": "Proved for all inputs/histories: simple_list_safe, simple_list_selected_visible, pager_complete, "
+                  "pager_offset_clamped, scrollbar_in_track, dyn_no_panic_empty. Proved with an explicit extra hypothesis "
+                  "(full statement kept as def): dyn_layout_partial (gap = 0 or no upward scroll; full statement refuted by "
+                  "Witness.F119.dyn_layout_full_fails = finding F119c), dyn_cursor_visible_partial / dyn_next_prev_visible_partial "
+                  "(state assumed settled; full statement dyn_cursor_visible_full open). Validated by correspondence only: "
+                  "Dynamic.Draw no-panic and visibility over whole histories with a fixed builder (oracle evaluated on the real "
+                  "code on every generated history; two recorded findings F119b/F119c), what Println/SetCell do with the rows. "
+                  "Model tied to source by Gen/ListFacts.lean (index expressions translated, Draw/Layout/scrollbar bodies "
+                  "pinned statement by statement, Dynamic's methods pinned by digest, three repair facts as Bools) and by the "
+                  "public-API correspondence (0 mismatches allowed).",
+    "assumptions": [
+        "Dynamic list: child heights and their sums stay below 2^16 (uint16 arithmetic not modelled); cursors passed to SetCursor are below 2^63",
+        "Draw contexts are bounded (Max.Width, Max.Height != 65535), as Dynamic.Draw itself requires",
+    ],
+    "technique": "Lean 4 proof over an executable model; extractor + differential correspondence harness",
     "timeout": 1500,
 }
